@@ -26,6 +26,8 @@ func init() {
 	core.RegisterJudge("C12", "int", judgeC12Int)
 	core.RegisterJudge("C12", "float", judgeC12Float)
 	core.RegisterJudge("C12", "pos", judgeC12Pos)
+	core.RegisterJudge("C12", "rawnl", judgeC12RawNL)
+	core.RegisterJudge("C12", "illegal", judgeC12Illegal)
 }
 
 func lexSafe(src string) (toks []lexer.Token, err error) {
@@ -339,7 +341,7 @@ func judgeC12Pos(c *core.Case, cfg *core.Config) core.Verdict {
 	return v
 }
 
-var c12Runes = []rune{'a', '"', '\'', '\\', '\n', '\r', '\t', 0, 1, 0x7f, 0x80, 0xff, 0x100, 'é', '😀', 0x2028, 0x85, 0xd7ff, 0xe000, 0xfffd, 0x10ffff, '`', '?', '{', ' '}
+var c12Runes = []rune{'a', '"', '\'', '\\', '\n', '\r', '\t', 0, 1, 0x7f, 0x80, 0xff, 0x100, 'é', '😀', 0x2028, 0x85, 0xd7ff, 0xe000, 0xfffd, 0x10ffff, '`', '?', '{', ' ', 0xfeff, 0x10fffe}
 
 func writeC12String(t *rapid.T, s string) string {
 	q := rapid.SampledFrom([]rune{'"', '\''}).Draw(t, "quote")
@@ -375,7 +377,80 @@ func writeC12StringWith(s string, q rune, choose func(n int) int) string {
 	return b.String()
 }
 
+// rawnl: a literal that holds a RAW carriage return or line feed. Whatever the lexer does with it, it does the
+// same whether or not some other character of the literal is spelled with an escape.
+func judgeC12RawNL(c *core.Case, cfg *core.Config) core.Verdict {
+	v := core.Verdict{Key: c.Source}
+	a, b := c.Source, c.Str("escaped")
+	ta, ea := lexSafe(a)
+	tb, eb := lexSafe(b)
+	if (ea != nil) != (eb != nil) {
+		v.Violation = fmt.Sprintf("%q lexes: %v, its spelling with one escape %q lexes: %v", a, ea, b, eb)
+		return v
+	}
+	if ea == nil && (len(ta) != 2 || len(tb) != 2 || ta[0].Value != tb[0].Value) {
+		v.Violation = fmt.Sprintf("%q lexes to %q, its spelling with one escape %q lexes to %q", a, ta[0].Value, b, tb[0].Value)
+		return v
+	}
+	v.NonTriv = true
+	v.Classes = append(v.Classes, "string:raw-newline")
+	return v
+}
+
+// illegal: a character that is no part of any token (outside string literals) makes the whole input an error,
+// wherever it stands.
+func judgeC12Illegal(c *core.Case, cfg *core.Config) core.Verdict {
+	v := core.Verdict{Key: c.Source}
+	toks, err := lexSafe(c.Source)
+	if err == nil {
+		v.Violation = fmt.Sprintf("%q holds the character %U outside any literal, yet it lexes to %v", c.Source, []rune(c.Str("ch"))[0], toks)
+		return v
+	}
+	if strings.HasPrefix(err.Error(), "PANIC") {
+		v.Violation = err.Error()
+		return v
+	}
+	if _, perr := parseSafe(c.Source); perr == nil {
+		v.Violation = fmt.Sprintf("%q holds the character %U outside any literal, yet it parses", c.Source, []rune(c.Str("ch"))[0])
+		return v
+	}
+	v.NonTriv = true
+	v.Classes = append(v.Classes, "illegal-character")
+	return v
+}
+
 func genC12(t *rapid.T) *core.Case {
+	switch k := rapid.IntRange(0, 19).Draw(t, "kind2"); k {
+	case 0:
+		// raw newline characters inside a literal, spelled twice
+		nl := rapid.SampledFrom([]string{"\r", "\n", "\r\n", "\r\r", "\n\r"}).Draw(t, "nl")
+		pre := rapid.SampledFrom([]string{"a", "ab", "é", ""}).Draw(t, "pre")
+		post := rapid.SampledFrom([]string{"b", "", "c d"}).Draw(t, "post")
+		q := rapid.SampledFrom([]string{"\"", "'"}).Draw(t, "q")
+		c := pcase("C12", "rawnl")
+		c.Source = q + pre + nl + post + "x" + q
+		c.P["escaped"] = q + pre + nl + post + rapid.SampledFrom([]string{`\x78`, `\u0078`, `\170`}).Draw(t, "esc") + q
+		return c
+	case 1:
+		ch := rapid.SampledFrom([]string{"\ufeff", "@", "~", "\\", "\x00", "\u200b", "`", "^"}).Draw(t, "illegal")
+		parts := []string{"a", "+", "1", "'s'", "(b)", "x.y"}
+		n := rapid.IntRange(0, 3).Draw(t, "np")
+		at := rapid.IntRange(0, n).Draw(t, "at")
+		var b strings.Builder
+		for i := 0; i <= n; i++ {
+			if i == at {
+				b.WriteString(ch)
+			}
+			if i < n {
+				b.WriteString(rapid.SampledFrom(parts).Draw(t, "part"))
+				b.WriteString(rapid.SampledFrom([]string{" ", "", "\n"}).Draw(t, "sp"))
+			}
+		}
+		c := pcase("C12", "illegal")
+		c.Source = b.String()
+		c.P["ch"] = ch
+		return c
+	}
 	switch rapid.IntRange(0, 3).Draw(t, "kind") {
 	case 0:
 		s := rapid.OneOf(rapid.String(), rapid.StringOfN(rapid.SampledFrom(c12Runes), 0, 12, -1)).Draw(t, "s")
